@@ -2494,3 +2494,54 @@ def replay(body):
     return 1 if r['violations'] else 0
 
 
+
+
+# ----------------------------------------------------------------------
+# per-property views of the dump probe (hooked into the property checks by their main()).
+# Not reported: behaviour of the output files that no property statement covers - the clad column of
+# temp_average / temp_maximum being the clad inner surface, temp_coolant_gap.csv being one plane behind,
+# the empty bypass column, the duct column of temp_maximum looking at the inner wall only, the file name
+# announced in the log, the set of files written (DESIGN.md 11.5).  Everything else the probe compares is
+# the field of the property in question: every row of the dump of that field must be the recorded field of
+# that assembly at that plane.
+DUMP_OUTSIDE = ('report-dumps-average-clad-column', 'report-dumps-maximum-clad-column',
+                'report-dumps-gap-one-plane-below', 'report-dumps-average-bypass-empty',
+                'report-dumps-maximum-duct-inner-wall-only', 'report-dumps-file-name', 'report-dumps-file-set')
+
+
+def _dumps_view(c, prop):
+    r = run_dumps(c)
+    keep = []
+    for v in r['violations']:
+        sc = v.get('scenario') or {}
+        if v['kind'] in DUMP_OUTSIDE:
+            continue
+        if v['kind'].startswith('report-run-') or sc.get('prop') == prop:
+            keep.append(v)
+    r['violations'] = keep
+    r['outcome'] = 'ok' if not keep else 'violation'
+    return r
+
+
+def run_dumps_C01(c):
+    return _dumps_view(c, 'C01')
+
+
+def run_dumps_C02(c):
+    return _dumps_view(c, 'C02')
+
+
+def run_dumps_C11(c):
+    return _dumps_view(c, 'C11')
+
+
+def run_dumps_C13(c):
+    return _dumps_view(c, 'C13')
+
+
+def run_dumps_C14(c):
+    return _dumps_view(c, 'C14')
+
+
+def run_dumps_C15(c):
+    return _dumps_view(c, 'C15')
